@@ -223,8 +223,12 @@ func c05Rules(rng *rand.Rand, dir, file string) []c05Rule {
 			}
 			return strings.Join(p, "-")
 		}, ",-"},
-		{"ints=--", func(r *rand.Rand) string { return digits(r, 1+r.Intn(3)) + "--" + digits(r, 1+r.Intn(3)) + pick(r, "", "--7", "--"+digits(r, 2)) }, "-1"},
-		{"ints=、", func(r *rand.Rand) string { return digits(r, 1+r.Intn(3)) + "、" + digits(r, 1+r.Intn(3)) + pick(r, "", "、30") }, "、,1"},
+		{"ints=--", func(r *rand.Rand) string {
+			return digits(r, 1+r.Intn(3)) + "--" + digits(r, 1+r.Intn(3)) + pick(r, "", "--7", "--"+digits(r, 2))
+		}, "-1"},
+		{"ints=、", func(r *rand.Rand) string {
+			return digits(r, 1+r.Intn(3)) + "、" + digits(r, 1+r.Intn(3)) + pick(r, "", "、30")
+		}, "、,1"},
 		{"ints=::|msg", func(r *rand.Rand) string { return digits(r, 2) + "::" + digits(r, 1) }, ":1"},
 		{"unique", func(r *rand.Rand) string {
 			pool := []string{"a", "b", "1", "测", "ab", "", "2"}
@@ -527,7 +531,9 @@ func runC05(c *core.Ctx) {
 			}
 		case 1:
 			text = "int"
-			v = []reflect.Value{reflect.ValueOf(int8(-3)), reflect.ValueOf(uint16(7)), reflect.ValueOf(int64(1) << 40), reflect.ValueOf(uint(9))}[rng.Intn(4)]
+			v = []reflect.Value{reflect.ValueOf(int8(-3)), reflect.ValueOf(uint16(7)), reflect.ValueOf(int64(1) << 40), reflect.ValueOf(uint(9)),
+				reflect.ValueOf(float32(1.5)), reflect.ValueOf(0.25), reflect.ValueOf(-0.5), reflect.ValueOf(2.0), reflect.ValueOf(1e300 + 0.0), reflect.ValueOf(float32(7.75))}[rng.Intn(10)]
+			text = pick(rng, "int", "int", "int|msg")
 		case 2:
 			text = "float"
 			v = []reflect.Value{reflect.ValueOf(float32(1.5)), reflect.ValueOf(2.0), reflect.ValueOf(-0.25)}[rng.Intn(3)]
